@@ -1,6 +1,9 @@
 package PKGNAME
 
-import "context"
+import (
+	"context"
+	"net"
+)
 
 // hxAuthSimple is a server-side handler for AUTH PLAIN (one step) and
 // AUTH LOGIN (two challenges); every reply is picked like any other reply.
@@ -154,5 +157,55 @@ func HarnessC19Close() {
 	if entry == 1 {
 		svAssert(s.quitSeen, "C19 successful DialAndSend without QUIT")
 		svAssert(s.closed, "C19 successful DialAndSend left the connection open")
+	}
+}
+
+// Sequences of dials on one Client: every transport connection opened by a
+// call that returns an error is closed when the call returns, also when the
+// Client already holds a connection.
+func HarnessC19Redial() {
+	closeBetween := svPick("close-between", 2) == 1
+	second := svPick("second-call", 2) // 0 DialWithContext, 1 DialAndSend
+	s1 := hxNewSrv([]string{"8BITMIME"})
+	s1.onlyOK = true
+	s2 := hxNewSrv([]string{"8BITMIME"})
+	s2.maxDev = svParam("maxdev", 1)
+	s2.symDigits = true
+	dials := 0
+	c, err := NewClient("mail.example", WithTLSPolicy(NoTLS), WithHELO("client.example"),
+		WithDialContextFunc(func(ctx context.Context, network, address string) (net.Conn, error) {
+			dials++
+			if dials == 1 {
+				return &hxConn{s: s1}, nil
+			}
+			return &hxConn{s: s2}, nil
+		}))
+	if err != nil {
+		svAssert(false, "setup-newclient")
+		return
+	}
+	if err := c.DialWithContext(context.Background()); err != nil {
+		svAssert(false, "setup-first-dial")
+		return
+	}
+	if closeBetween {
+		_ = c.Close()
+	}
+	var err2 error
+	if second == 0 {
+		err2 = c.DialWithContext(context.Background())
+	} else {
+		err2 = c.DialAndSend(hxTestMsg(0, 1, 0, EncodingQP))
+	}
+	if dials < 2 {
+		svReach("second-call-did-not-dial")
+		return
+	}
+	svReach("second-connection-opened")
+	if err2 != nil {
+		svReach("second-call-failed")
+		svAssert(s2.closed, "C19 connection opened by a failing second call left open (after "+hxLastStep(s2)+")")
+	} else if second == 1 {
+		svAssert(s2.quitSeen && s2.closed, "C19 successful DialAndSend left its connection open")
 	}
 }
